@@ -375,7 +375,9 @@ class Checker(object):
             l = self.expr(e[2], env)
             if self.strict:
                 self.unify(l, self.mklist(a))
-            return BOOL()
+            # `x in l` used as a value: Bool, but /repo has no signature for it (known
+            # class neq); the lax run leaves its type open unless that class is on
+            return BOOL() if (self.strict or self.strict_neq) else VAR()
         if k == 'arrow':
             return REC({'arg': self.expr(e[1], env), 'value': self.expr(e[2], env)})
         if k == 'fcall':
